@@ -100,12 +100,16 @@ def evaluate_batch(kerns, rng, use_api=None):
             act = [(l, rng.randint(-4, 4)) for l in locs]
             bb = b + [[list(l), v] for l, v in act]
             lids = [res.names.id(n) for n in k.active if n in k.locals]
+            plain = [[list(l), v] for l, v in R.bindings(k, res.names)] + [[list(l), v] for l, v in act]
+            aids = sorted({res.names.id(n) for n in k.active})
             idx.append((e, len(lines)))
-            lines += [sx(["adjroutine", lids, res.tl_form]), sx(["safe", res.tl_form, b]),
+            lines += [sx(["adjroutine", lids, res.tl_form]), sx(["why", res.tl_form, b]),
                       sx(["touched", res.tl_form, b]), sx(["touched", res.ad_form, b]),
-                      sx(["sem", res.tl_form, bb, [list(l) for l in locs]])]
+                      sx(["sem", res.tl_form, bb, [list(l) for l in locs]]),
+                      sx(["run", res.tl_form, plain, [list(l) for l in locs]]),
+                      sx(["accepted", aids, res.tl_form]), sx(["scoped", res.tl_form])]
             jdx.append((e, "sem", len(jobs)))
-            jobs.append((res.tlpp_minif, e["bind"] + act, locs))
+            jobs.append((res.tlpp_minif, R.bindings(k, res.names) + act, locs))
         act = [(l, rng.randint(-4, 4)) for l in allv if rng.random() < 0.3]
         q, expect = [], []
         for name, v in k.passive_vals.items():
@@ -121,14 +125,24 @@ def evaluate_batch(kerns, rng, use_api=None):
         res = e["res"]
         e["model_adjoint"], e["real_adjoint"] = out[i], sx(res.ad_form)
         e["structural"] = out[i] == e["real_adjoint"]
-        e["safe"] = out[i + 1] == "1"
+        e["reasons"] = common.parse_sx(out[i + 1])
+        e["safe"] = e["reasons"] == []
+        if res.interleaved:
+            # passive assignments between active statements: the read-only-store operations do not apply
+            e["safe"] = e["reasons"] = None
         e["touched"] = [common.parse_sx(out[i + 2]), common.parse_sx(out[i + 3])]
-        e["sem_model"] = common.parse_sx(out[i + 4])
+        # C19.sem (read-only passive store) is the Fortran reading only for programs without passive assignments whose
+        # loop variables are read inside their loops (C19_run_eq_sem); a passive prelude is handled through the bindings
+        pure_scoped = out[i + 7] == "1" or (bool(res.prelude) and not res.interleaved)
+        e["sem_model"] = common.parse_sx(out[i + 4]) if pure_scoped else None
+        e["run_model"] = [int(t.split(":")[0]) for t in out[i + 5].strip("()").split()]
+        e["model_accepts"] = out[i + 6] == "1"
     for e, what, j in jdx:
         if what == "sem":
-            e["sem_ok"] = e["sem_model"] == mf[j]
+            # C19.run (Fortran reading) always, C19.sem (read-only passive store) when there are no interleaved passives
+            e["sem_ok"] = e["run_model"] == mf[j] and e["sem_model"] in (None, mf[j])
             if not e["sem_ok"]:
-                e["sem_pair"] = (str(e["sem_model"])[:300], str(mf[j])[:300])
+                e["sem_pair"] = ("run " + str(e["run_model"])[:200] + " sem " + str(e["sem_model"])[:200], str(mf[j])[:300])
         else:
             for loc, g, x in zip(e["passive_q"], mf[j], e["passive_expect"]):
                 if g != x:
@@ -194,9 +208,13 @@ def classify(kern, ev, findings):
     committed model reproduces the real output (structural agreement) AND the classifier of
     the finding accepts the input."""
     ids = {f["id"] for f in findings}
-    if ev["structural"] and ev["safe"] is False and ids & {"C19-zero-trip-nonunit-step", "C19-hidden-alias"}:
-        # the model's own side condition `safe` fails: hidden alias or spurious reversed iteration
-        return "model-unsafe"
+    reasons = set(ev.get("reasons") or [])
+    # the model's own side condition `safe` fails because of a hidden alias or a spurious reversed iteration (and of
+    # nothing else: a section statement that violates the acceptance rule is NOT a known finding)
+    if ev["structural"] and reasons and reasons <= {"alias", "spurious"}:
+        need = {"alias": "C19-hidden-alias", "spurious": "C19-zero-trip-nonunit-step"}
+        if all(need[r] in ids for r in reasons):
+            return "model-unsafe:" + ",".join(sorted(reasons))
     return None
 
 
@@ -282,6 +300,9 @@ def run(chk):
             else:
                 chk.violation(dict(kern.payload(), kind="failing-input", origin=origin, observed=ev["defect"],
                                    expected="adjoint matrix = transpose of the TL matrix; passive arguments unchanged"))
+        if ev.get("model_accepts") is False:
+            chk.correspondence_broken("PSyAD produced an adjoint for a kernel that C19.Accepted refuses", kern.payload(),
+                                      "refused", "accepted")
         if ev["structural"] is False:
             chk.correspondence_broken("real adjoint differs from C19.adjointRoutine", kern.payload(),
                                       ev["model_adjoint"], ev["real_adjoint"])
@@ -313,7 +334,14 @@ def run(chk):
     for _ in range(n_refused):
         what, src, active = G.refused_kernel(rng)
         res = R.pipeline(src, active)
-        agreed = res.status == "refused" and res.tl_form is None
+        # kernels the exporter can still write down must be refused by the model's Accepted as well
+        model_refuses = res.tl_form is None or _c19([sx(["accepted", sorted({res.names.id(n) for n in active}),
+                                                         res.tl_form])])[0] == "0"
+        dist["refused_in_model_form"] = dist.get("refused_in_model_form", 0) + (res.tl_form is not None)
+        agreed = res.status == "refused" and model_refuses
+        if res.status == "refused" and not model_refuses:
+            chk.correspondence_broken("PSyAD refuses a kernel that C19.Accepted accepts: " + what, {"src": src},
+                                      "accepted", res.exc)
         chk.case({"src": src}, nontrivial=False, agreed=agreed)
         dist["refused"] += 1
         if res.status == "ok":
